@@ -98,6 +98,9 @@ PostClause(e, b, accepted) ==
                              rf == {[tx |-> rows[j][3][m][1], idx |-> rows[j][3][m][2]] : m \in 1..Len(rows[j][3])}
                          IN rows[j][2] # bo.value \/ rf # bo.refs \/ Cardinality(rf) # Len(rows[j][3]))
           THEN "C03:per_key_balance_differs_from_unspent_outputs"
+     ELSE IF "C15" \in Focus /\ p.walletbal >= 0 /\ head' \in DOMAIN utxo'
+                 /\ p.walletbal # SumVals(utxo'[head'], {r \in DOMAIN utxo'[head'] : utxo'[head'][r].k \in Range(p.walletkeys)})
+          THEN "C15:reported_balance_differs_from_unspent_outputs_paying_wallet_keys"
      ELSE IF "C03" \in Focus /\ p.walletbal >= 0 /\ head' \in DOMAIN utxo'
                  /\ p.walletbal # SumVals(utxo'[head'], {r \in DOMAIN utxo'[head'] : utxo'[head'][r].k \in Range(p.walletkeys)})
           THEN "C03:wallet_balance_differs"
@@ -136,10 +139,51 @@ StepAdd(e) ==
                         THEN Verdict("C05:assembled_block_rejected", TRUE)
                    ELSE Continue
 
+(* ---- Wallet: create_spend_transaction observed on the chain state built so far (C14) ---- *)
+RefsOfRows(rows) == {[tx |-> rows[i][1], idx |-> rows[i][2]] : i \in 1..Len(rows)}
+RECURSIVE Greedy(_, _, _, _, _)
+Greedy(ordr, u, usedB, need, acc) ==      \* Wallet!Collect on the observed visiting order
+  IF SumSeq([k \in 1..Len(acc) |-> u[acc[k]].v], 1) >= need \/ ordr = << >> THEN acc
+  ELSE LET r == [tx |-> ordr[1][1], idx |-> ordr[1][2]]
+       IN IF r \in usedB \/ r \notin DOMAIN u THEN Greedy(Tail(ordr), u, usedB, need, acc)
+          ELSE Greedy(Tail(ordr), u, usedB, need, Append(acc, r))
+StepSpend(e) ==
+  LET u == utxo[head]
+      wk == {e.wallet_keys[i] : i \in 1..Len(e.wallet_keys)}
+      usedB == RefsOfRows(e.used_before)
+      usedA == RefsOfRows(e.used_after)
+      free == {r \in DOMAIN u : u[r].k \in wk /\ r \notin usedB}
+      affordable == SumVals(u, free) >= e.amount + e.fee
+      t == e.tx
+      refs == Refs(t)
+      inSum == SumVals(u, refs \cap DOMAIN u)
+      change == inSum - e.amount - e.fee
+      c == IF "C14" \notin Focus THEN ""
+           ELSE IF e.res = "error" THEN "C14:spend_raised_an_unexpected_error"
+           ELSE IF e.res = "insufficient" /\ usedA # usedB THEN "C14:failed_spend_changed_the_record_of_used_outputs"
+           ELSE IF e.res = "insufficient" /\ affordable THEN "C14:affordable_spend_reported_insufficient"
+           ELSE IF e.res = "insufficient" THEN ""
+           ELSE IF ~(refs \subseteq DOMAIN u) THEN "C14:spends_an_output_that_is_not_unspent_at_head"
+           ELSE IF \E r \in refs : u[r].k \notin wk THEN "C14:spends_an_output_not_owned_by_the_wallet"
+           ELSE IF refs \cap usedB # {} THEN "C14:spends_an_output_used_by_an_earlier_spend"
+           ELSE IF Cardinality(refs) # Len(t.ins) THEN "C14:same_output_twice"
+           ELSE IF Len(t.outs) = 0 \/ t.outs[1].v # e.amount \/ t.outs[1].k # e.recipient THEN "C14:recipient_not_paid_exactly_the_amount"
+           ELSE IF change < 0 THEN "C14:inputs_do_not_cover_amount_plus_fee"
+           ELSE IF change = 0 /\ Len(t.outs) # 1 THEN "C14:unexpected_extra_output"
+           ELSE IF change > 0 /\ (Len(t.outs) # 2 \/ t.outs[2].v # change \/ t.outs[2].k # e.change_key) THEN "C14:change_is_not_inputs_minus_amount_minus_fee"
+           ELSE IF TxByItself(t) # "" \/ TxInState(u, t) # "" THEN "C14:transaction_fails_validation_at_head"
+           ELSE IF ~e.real_validators_accept THEN "C14:transaction_refused_by_the_nodes_own_validators"
+           ELSE IF usedA # usedB \cup refs THEN "C14:record_of_used_outputs_not_updated_exactly"
+           ELSE ""
+      predicted == Greedy(e.owned_order, u, usedB, e.amount + e.fee, << >>)
+  IN /\ UNCHANGED lvars
+     /\ (e.res = "tx" /\ RefSeq(t) # predicted => PrintT(ToJson(<< "DRIFT", Traces[tid].id, l, "greedy", "selection", "differs" >>)))
+     /\ IF c # "" THEN Verdict(c, TRUE) ELSE Continue
+
 TInit == /\ tid \in 1..Len(Traces)
          /\ l = 1 /\ done = FALSE
          /\ LInit(ToBlk(Traces[tid].genesis))
 TNext == /\ ~done /\ l <= Len(Ev)
-         /\ StepAdd(Ev[l])
+         /\ IF Ev[l].ev = "spend" THEN StepSpend(Ev[l]) ELSE StepAdd(Ev[l])
 TSpec == TInit /\ [][TNext]_tvars
 =============================================================================
